@@ -3,6 +3,7 @@ package csproto
 import (
 	"errors"
 
+	protov1 "github.com/golang/protobuf/proto" //nolint: staticcheck // we're using this deprecated package intentionally
 	"google.golang.org/protobuf/proto"
 )
 
@@ -77,6 +78,11 @@ func Marshal(msg interface{}) ([]byte, error) {
 		return proto.Marshal(pm)
 	}
 
+	// Google V1 messages generated without the XXX_ methods
+	if pm, ok := msg.(protov1.Message); ok && MsgType(msg) == MessageTypeGoogleV1 {
+		return protov1.Marshal(pm)
+	}
+
 	return nil, ErrMarshaler
 }
 
@@ -93,6 +99,11 @@ func Unmarshal(data []byte, msg interface{}) error {
 
 	if pm, ok := msg.(proto.Message); ok {
 		return proto.Unmarshal(data, pm)
+	}
+
+	// Google V1 messages generated without the XXX_ methods
+	if pm, ok := msg.(protov1.Message); ok && MsgType(msg) == MessageTypeGoogleV1 {
+		return protov1.Unmarshal(data, pm)
 	}
 
 	return ErrUnmarshaler
